@@ -251,19 +251,24 @@ def judgeCompute (prop : String) : P Verdict := do
   match st with
   | "timeout" =>
     let _ ← restOfInput
-    -- C18 promises a stop only AT a check where convergence holds and the last L+1 rankings agree (and only
-    -- for runs without tied scores): a run in which the documented schedule itself never reaches such a
-    -- check within the driver's horizon, or whose scores tie, is outside what it states
-    if prop == "C18" then
-      let sp := specRun r fuelCap
-      if sp.tied || !sp.endedByCriteria then
-        pure { prop := true, corr := true,
-               msg := s!"implementation did not return within the watchdog; the documented schedule does not stop within {fuelCap} iterations either (tied={sp.tied})" }
-      else
-        pure { prop := false, corr := false,
-               msg := s!"implementation did not return (watchdog); the documented schedule stops at iteration {sp.stopIter}" }
+    -- An implementation that does not return is judged against the documented schedule run by the driver on the
+    -- same floats: if that schedule (delta ≤ epsilon and, with a flat tail, L+1 identical rankings at a scheduled
+    -- check; never more than maxIterations) does not stop within the driver's horizon either, the run is not a
+    -- violation of the stop rule (C05, C18) nor of what the other properties say about returned results — it is
+    -- the rounding-floor family recorded as a known finding under C15.  C05's termination clause (default
+    -- schedule, no flat tail, a ≥ 0.001, e ≥ 1e-9) is the exception: there the theorem promises a bound.
+    let sp := specRun r fuelCap
+    let bounded := match r.maxI with | some m => m > 0 | none => false
+    let dflt := r.minI.isNone && r.freq.isNone && r.flat == 0 && r.t0.isNone
+    let c05clause := prop == "C05" && dflt && r.a ≥ 0.001 && r.e ≥ 1e-9
+    if !bounded && !sp.endedByCriteria && !c05clause then
+      pure { prop := true, corr := true,
+             msg := s!"implementation did not return within the watchdog; the documented schedule does not stop within {fuelCap} iterations either (tied={sp.tied})" }
+    else if prop == "C18" && sp.tied then
+      pure { prop := true, corr := true, msg := "implementation did not return within the watchdog; tied scores (excluded by the property)" }
     else
-      pure { prop := false, corr := false, msg := "implementation did not return (watchdog)" }
+      pure { prop := false, corr := false,
+             msg := s!"implementation did not return (watchdog); the documented schedule stops at iteration {sp.stopIter}" }
   | "panic" =>
     let _ ← restOfInput
     pure { prop := false, corr := false, msg := "implementation panicked" }
